@@ -1,6 +1,7 @@
 import Tumfl.Theory.ResolveFaithfulFound
 import Tumfl.Theory.ResolveFaithfulExample
 import Tumfl.Theory.ResolveNothingLeft
+import Tumfl.Theory.ResolveDesignates
 /-!
 # C04, the clause "everything else in every file is unchanged" - refinement of the resolver model to a declarative specification
 
@@ -70,5 +71,19 @@ theorem C12_nothing_left (fs : FS) (main : Path) (sp : List Path) (fuel : Nat) (
 theorem C12_ok_no_bad_require (fs : FS) (main : Path) (sp : List Path) (fuel : Nat) (b' : Block) (h : resolveRecursive fs main sp fuel = .ok b') :
     ∃ text b hs, fs.read main = some text ∧ parseText text = .ok (b, hs) ∧ badRequireBlock b = false :=
   resolve_ok_no_bad_require fs main sp fuel b' h
+
+/-- the InvalidDependencyError is raised FOR THAT CALL: the token an `InvalidDependencyError` carries is the token of a call of the bare name `require` that occurs in
+a file of the dependency tree (`InTree`: the main file, and every file a literal require in a tree file finds) and that really is uninlinable - its arguments are not exactly one
+string literal (message "Wrong require() arguments"), or the lookup from that file's directory finds nothing (message "Could not find dependency").  No hypothesis: the parser never
+raises that error class (`parseText_no_dependency`). -/
+theorem C12_error_designates (fs : FS) (main : Path) (sp : List Path) (fuel : Nat) (m : String) (t : Token)
+    (h : resolveRecursive fs main sp fuel = .error (.dependency m t)) :
+    ∃ dir b, InTree fs sp main dir b ∧ offendsBlock fs sp dir m t b :=
+  resolve_designates fs main sp fuel m t h
+
+/-- every block of the dependency tree is the parse of a file (as a chunk, for an inlined one), and its directory is that file's -/
+theorem C12_tree_is_files {fs : FS} {sp : List Path} {main : Path} {dir : Path} {b : Block} (h : InTree fs sp main dir b) :
+    ∃ path text b0 hs, fs.read path = some text ∧ parseText text = .ok (b0, hs) ∧ dir = dirOf path ∧ (b = b0 ∨ b = asChunk b0) :=
+  h.is_file
 
 end Tumfl.Props
